@@ -87,20 +87,32 @@ theorem C03_connect_gating (s : PState) (h : String) (app : AppM) (ha : getApp s
   · intro hu hb
     simp [hu, hb]
 
-/-- **C03 (verdicts at connect).**  A 410 makes the application disconnected, a 401 invalid-license; every other
-failure (409, any other status, transport error, malformed reply) leaves it retryable (unknown). -/
-theorem C03_connect_verdicts (s : PState) (h : String) (app : AppM) (ha : getApp s h = some app) (o : Outcome) :
+/-- **C03 (verdicts at connect).**  For an application that is waiting for a connect (state unknown): a 410 makes it
+disconnected, a 401 invalid-license; every other failure (409, any other status, transport error, malformed reply)
+leaves it retryable (unknown). -/
+theorem C03_connect_verdicts (s : PState) (h : String) (app : AppM) (ha : getApp s h = some app)
+    (hu : app.state = .unknown) (o : Outcome) :
     let st := ((getApp (connectFailed s h o) h).map (·.state))
     (o.code = 410 → st = some .disconnected) ∧ (o.code = 401 → st = some .invalidLicense) ∧
     (o.code ≠ 410 → o.code ≠ 401 → st = some .unknown) := by
   have hget : ∀ a : AppM, getApp (setApp s h a) h = some a := fun a => getApp_setApp_same s h a
-  simp only [connectFailed, ha, hget, Option.map_some]
+  simp only [connectFailed, ha, hu, bne_self_eq_false, Bool.false_eq_true, if_false, hget, Option.map_some]
   unfold Gen.Status.isDisconnect Gen.Status.isRestartException Gen.Status.isInvalidLicense
   refine ⟨?_, ?_, ?_⟩
   · intro hc; simp [hc]
   · intro hc; simp [hc]
   · intro h1 h2
     by_cases h9 : o.code = 409 <;> simp [h1, h2, h9]
+
+/-- **C03 (a verdict is permanent against stale connect results).**  Once an application is disconnected (410),
+invalid-license (401) or connected, the result of another connect attempt that was still in flight — success or any
+failure, at the preconnect or the connect stage — changes nothing: it neither revives the application, nor makes it
+retryable again, nor creates a second run. -/
+theorem C03_stale_attempt_ignored (s : PState) (h : String) (app : AppM) (ha : getApp s h = some app)
+    (hs : app.state ≠ .unknown) :
+    (∀ o, connectFailed s h o = s) ∧ (∀ coll run cfg, connectOk s h coll run cfg = s) := by
+  have hb : (app.state != AState.unknown) = true := by simpa using hs
+  exact ⟨fun o => by simp [connectFailed, ha, hb], fun coll run cfg => by simp [connectOk, ha, hb]⟩
 
 /-- **C03 (data for a run the daemon does not hold is dropped).** -/
 theorem C03_unknown_run_dropped (s : PState) (r : String) (t : TxnM) (h : getRun s r = none) :
